@@ -21,8 +21,17 @@ impl BananaShower {
             let mut count = 0;
 
             while time <= end_time {
-                time += spacing;
+                let next = time + spacing;
                 count += 1;
+
+                // For times beyond 2^24 ms `f32` can be too coarse for the
+                // step to register at all. Without this check the loop
+                // would never end.
+                if next <= time {
+                    break;
+                }
+
+                time = next;
             }
 
             count
